@@ -916,9 +916,14 @@ def c12_t1(ctx, f):
 def c18_t1(ctx, f):
     rid = "C18.T1"
     ctx.rule(rid, "default frame: odd, non-decreasing, < 40% of the side, clear of finders; image <= frame (3 x 40)")
-    fn = anchor_fn(ctx, rid, f, SVGB + "::image_placement", [IBS, "usize"], "(f64, f64)")
+    fn = anchor_fn(ctx, rid, f, SVGB + "::image_placement", [IBS, "usize"], "(f64, f64)", private=True)
     vs = f.enum_variants(IBS)
     if not fn or not vs:
+        return
+    if (fn.raw.get("inputs") or []) != [IBS, "usize"] or fn.raw.get("output") != "(f64, f64)":
+        # a private helper with another contract (what the integer means, what it returns): decided through image() by C18.R2
+        ctx.abstain(rid, "image_placement is not (shape, symbol side) -> (frame side, image side): its table is read through "
+                         "SvgBuilder::image by C18.R2 only", where_fn(fn))
         return
     from . import peval as _pe
     F = _pe.PEval(f, max_steps=1_000_000)
